@@ -597,15 +597,121 @@ const W_TYS: &[Ty] = &[
     Ty::I32, Ty::F64, Ty::Tokens, Ty::EncOps, Ty::BTreeMapU32Str, Ty::Duration, Ty::VecString, Ty::TaggedRec, Ty::Point, Ty::Color,
 ];
 
+fn generate_single(r: &mut Rng, tier: Tier) -> C16 {
+    let big = tier == Tier::Thorough && r.chance(1, 40);
+    let nitems = if big { r.range(1, 2) } else { 1 + r.below(8) } as usize;
+    let profile = r.below(4);
+    let mixed = r.chance(1, 2);
+    let ty0 = *r.pick(W_TYS);
+    let en_reject = r.chance(1, 3);
+    let mut items = Vec::new();
+    for _ in 0..nitems {
+        let kind = if en_reject && r.chance(1, 5) {
+            ItemKind::Fail(if r.chance(1, 2) { 0 } else { r.range(1, 300) as u32 })
+        } else {
+            let size = match profile {
+                0 => r.below(4) as u32,
+                1 => r.below(30) as u32,
+                _ => gen_size(r, big),
+            };
+            ItemKind::Val(ValSpec { ty: if mixed { *r.pick(W_TYS) } else { ty0 }, size, seed: r.next_u64() })
+        };
+        items.push(Item { kind, sync_before: r.chance(1, 6), flush_after: r.chance(1, 10) });
+    }
+    let len = total_len(&items);
+    let en_short = r.chance(3, 4);
+    let en_pending = r.chance(3, 4);
+    let en_err = r.chance(1, 2);
+    let en_zero = r.chance(1, 3);
+    let en_cancel = r.chance(3, 4);
+    let density = *r.pick(&[1u64, 1, 3, 8]);
+    let gran = *r.pick(&[1u32, 2, 4, 4, 16, 64, 1024]);
+    let lane_len = r.usize_in(0, if tier == Tier::Quick { 64 } else { 96 });
+    let mut sink = Vec::with_capacity(lane_len);
+    for _ in 0..lane_len {
+        let roll = r.below(16);
+        let st = if roll < density {
+            match r.below(4) {
+                0 if en_pending => Step::Pending,
+                1 if en_err => Step::Err(*r.pick(&ERR_KINDS)),
+                2 if en_zero => Step::Zero,
+                _ if en_pending => Step::Pending,
+                _ => Step::Xfer(1),
+            }
+        } else if en_short {
+            Step::Xfer(1 + r.below(gran as u64) as u32)
+        } else {
+            Step::Xfer(u32::MAX)
+        };
+        sink.push(st);
+    }
+    if en_pending && en_cancel && r.chance(1, 5) {
+        sink.clear();
+        for _ in 0..len.min(48) {
+            sink.push(Step::Pending);
+            if r.chance(1, 6) {
+                sink.push(Step::Pending)
+            }
+            sink.push(Step::Xfer(1 + r.below(gran.min(4) as u64) as u32));
+        }
+    }
+    let npend = sink.iter().filter(|s| **s == Step::Pending).count();
+    let cancel_rate = *r.pick(&[1u64, 4, 8]);
+    let caller: Vec<Decide> = (0..npend).map(|_| if en_cancel && r.chance(cancel_rate, 16) { Decide::Cancel } else { Decide::Poll }).collect();
+    C16 {
+        items,
+        max_len_mode: if r.chance(1, 3) { 1 + r.below(3) as u8 } else { 0 },
+        init_buf: if r.chance(1, 3) { r.range(1, 300) as u32 } else { 0 },
+        use_ctx: r.chance(1, 8),
+        sink,
+        caller,
+    }
+}
+
+/// A C16 run is either the single-task world or the two-task pipe world (writer-side oracles).
+#[derive(Clone, Debug)]
+pub enum S16 {
+    Single(C16),
+    Pipe(crate::pipe::PipeSc),
+}
+
+impl Scenario for S16 {
+    fn to_json(&self) -> Json {
+        match self {
+            S16::Single(c) => c.to_json(),
+            S16::Pipe(p) => p.to_json(),
+        }
+    }
+    fn from_json(j: &Json) -> Result<Self, String> {
+        if j.get("kind").and_then(|k| k.as_str()) == Some("pipe") {
+            Ok(S16::Pipe(crate::pipe::PipeSc::from_json(j)?))
+        } else {
+            Ok(S16::Single(C16::from_json(j)?))
+        }
+    }
+    fn run(&self, obs: &mut Obs) -> Result<(), Violation> {
+        match self {
+            S16::Single(c) => c.run(obs),
+            S16::Pipe(p) => p.run(crate::pipe::Side::Writer, obs),
+        }
+    }
+    fn shrink(&self) -> Vec<Self> {
+        match self {
+            S16::Single(c) => c.shrink().into_iter().map(S16::Single).collect(),
+            S16::Pipe(p) => p.shrink().into_iter().map(S16::Pipe).collect(),
+        }
+    }
+}
+
 pub struct P16;
 
 impl Property for P16 {
-    type S = C16;
+    type S = S16;
     const ID: &'static str = "C16";
     const LEVEL: &'static str = "exploration";
 
-    fn sweeps(tier: Tier) -> Vec<C16> {
-        let mut out = Vec::new();
+    fn sweeps(tier: Tier) -> Vec<S16> {
+        let mut out: Vec<C16> = Vec::new();
         let tys: &[Ty] = if tier == Tier::Quick { &[Ty::Str, Ty::Bytes] } else { &[Ty::Str, Ty::Bytes, Ty::Tree, Ty::MapRec] };
         for &ty in tys {
             let items = vec![val(ty, 0, 7), val(ty, 1, 8), val(ty, 24, 9)];
@@ -683,85 +789,23 @@ impl Property for P16 {
                 }
             }
         }
-        out
+        let mut all: Vec<S16> = out.into_iter().map(S16::Single).collect();
+        all.extend(crate::pipe::PipeSc::sweeps().into_iter().map(S16::Pipe));
+        all
     }
 
     fn random_runs(tier: Tier) -> u64 {
         match tier {
-            Tier::Quick => 400_000,
-            Tier::Thorough => 30_000_000,
+            Tier::Quick => 1_500_000,
+            Tier::Thorough => 60_000_000,
         }
     }
 
-    fn generate(r: &mut Rng, tier: Tier) -> C16 {
-        let big = tier == Tier::Thorough && r.chance(1, 40);
-        let nitems = if big { r.range(1, 2) } else { 1 + r.below(8) } as usize;
-        let profile = r.below(4);
-        let mixed = r.chance(1, 2);
-        let ty0 = *r.pick(W_TYS);
-        let en_reject = r.chance(1, 3);
-        let mut items = Vec::new();
-        for _ in 0..nitems {
-            let kind = if en_reject && r.chance(1, 5) {
-                ItemKind::Fail(if r.chance(1, 2) { 0 } else { r.range(1, 300) as u32 })
-            } else {
-                let size = match profile {
-                    0 => r.below(4) as u32,
-                    1 => r.below(30) as u32,
-                    _ => gen_size(r, big),
-                };
-                ItemKind::Val(ValSpec { ty: if mixed { *r.pick(W_TYS) } else { ty0 }, size, seed: r.next_u64() })
-            };
-            items.push(Item { kind, sync_before: r.chance(1, 6), flush_after: r.chance(1, 10) });
+    fn generate(r: &mut Rng, tier: Tier) -> S16 {
+        if r.chance(1, 6) {
+            return S16::Pipe(crate::pipe::PipeSc::generate(r));
         }
-        let len = total_len(&items);
-        let en_short = r.chance(3, 4);
-        let en_pending = r.chance(3, 4);
-        let en_err = r.chance(1, 2);
-        let en_zero = r.chance(1, 3);
-        let en_cancel = r.chance(3, 4);
-        let density = *r.pick(&[1u64, 1, 3, 8]);
-        let gran = *r.pick(&[1u32, 2, 4, 4, 16, 64, 1024]);
-        let lane_len = r.usize_in(0, if tier == Tier::Quick { 64 } else { 96 });
-        let mut sink = Vec::with_capacity(lane_len);
-        for _ in 0..lane_len {
-            let roll = r.below(16);
-            let st = if roll < density {
-                match r.below(4) {
-                    0 if en_pending => Step::Pending,
-                    1 if en_err => Step::Err(*r.pick(&ERR_KINDS)),
-                    2 if en_zero => Step::Zero,
-                    _ if en_pending => Step::Pending,
-                    _ => Step::Xfer(1),
-                }
-            } else if en_short {
-                Step::Xfer(1 + r.below(gran as u64) as u32)
-            } else {
-                Step::Xfer(u32::MAX)
-            };
-            sink.push(st);
-        }
-        if en_pending && en_cancel && r.chance(1, 5) {
-            sink.clear();
-            for _ in 0..len.min(48) {
-                sink.push(Step::Pending);
-                if r.chance(1, 6) {
-                    sink.push(Step::Pending)
-                }
-                sink.push(Step::Xfer(1 + r.below(gran.min(4) as u64) as u32));
-            }
-        }
-        let npend = sink.iter().filter(|s| **s == Step::Pending).count();
-        let cancel_rate = *r.pick(&[1u64, 4, 8]);
-        let caller: Vec<Decide> = (0..npend).map(|_| if en_cancel && r.chance(cancel_rate, 16) { Decide::Cancel } else { Decide::Poll }).collect();
-        C16 {
-            items,
-            max_len_mode: if r.chance(1, 3) { 1 + r.below(3) as u8 } else { 0 },
-            init_buf: if r.chance(1, 3) { r.range(1, 300) as u32 } else { 0 },
-            use_ctx: r.chance(1, 8),
-            sink,
-            caller,
-        }
+        S16::Single(generate_single(r, tier))
     }
 
     fn rule() -> &'static str {
